@@ -11,6 +11,7 @@ void h_ppm_tail(void) {
   uint64_t in_maxv;
   g_P = in_P;
   g_c = in_c;
+  g_alloc = 0; g_freed = 0;
   Image* self;
   FILE* f;
   Image_load_ppm_tail(self, f, C06_FORMAT, in_w, in_h, in_alpha, C06_CW, in_maxv);
